@@ -4,6 +4,7 @@
   disjointness of the two object graphs, equals, parent, equivalences by position).
 -/
 import Cellml.Clone.Proofs
+import Cellml.Generated.CloneFields
 namespace Cellml.Props.C11
 open Cellml.Clone
 
@@ -95,5 +96,23 @@ theorem C11_independence_refuted :
 /-! non-vacuity -/
 example : WithinDepth 2 (.mk 1 "" "c" "e1" "" ⟨none, ""⟩ [] [] [.mk 1 "" "k" "" "" ⟨none, ""⟩ [] [⟨1, "", none, "", "", "", "", .own 0, .none_⟩] []]) := by
   intro k hk; simp at hk; subst hk; intro k hk; cases hk
+
+/-! ### the attributes and children `clone()` carries over (table regenerated from the `clone()` bodies) -/
+
+/-- T-tie: the setters and adders each `clone()` calls are the ones the clone model (`Cellml/Clone/Model.lean`) copies
+    with: identifier, name, import source and reference and the unit children of a units; identifier, name, initial
+    value, interface type and units of a variable; the seven fields of a reset plus its two variables; identifier, name,
+    math, encapsulation identifier, import, variables, resets (re-linked to the cloned variables) and child components
+    of a component; identifier, name, encapsulation identifier, units and components of a model (equivalences are
+    re-made from the index-stack map).  A setter added to or dropped from the code re-opens this obligation. -/
+theorem clone_fields_as_modelled :
+    Cellml.Generated.CloneFields.rows =
+      [("Units", ["addUnit", "setId", "setImportReference", "setImportSource", "setName"]),
+        ("Variable", ["clone", "setId", "setInitialValue", "setInterfaceType", "setName", "setUnits"]),
+        ("Reset", ["clone", "setId", "setOrder", "setResetValue", "setResetValueId", "setTestValue", "setTestValueId", "setTestVariable", "setVariable"]),
+        ("Component", ["addComponent", "addReset", "addVariable", "clone", "setEncapsulationId", "setId", "setImportReference", "setImportSource", "setMath", "setName", "setTestVariable", "setVariable", "testVariable", "variable"]),
+        ("Model", ["addComponent", "addUnits", "clone", "component", "componentCount", "setEncapsulationId", "setId", "setName", "variable"]),
+        ("ImportSource", ["setId", "setModel", "setUrl"])] := by
+  decide +kernel
 
 end Cellml.Props.C11
